@@ -405,6 +405,7 @@ struct Exec {
             rc_check(op, opi, rc, exp_rc(op), op.rc_any); break;
         }
         case OP_DEL_ATT: rc = lib([&] { return ncmpi_del_att(me.ncid[op.file], op.var < 0 ? NC_GLOBAL : op.var, op.name.c_str()); }); rc_check(op, opi, rc, exp_rc(op), op.rc_any); break;
+        case OP_COPY_ATT: rc = lib([&] { return ncmpi_copy_att(me.ncid[op.file], op.var < 0 ? NC_GLOBAL : op.var, op.name.c_str(), me.ncid[op.a[0]], op.a[1] < 0 ? NC_GLOBAL : (int)op.a[1]); }); rc_check(op, opi, rc, exp_rc(op), op.rc_any); break;
         case OP_RENAME_ATT: rc = lib([&] { return ncmpi_rename_att(me.ncid[op.file], op.var < 0 ? NC_GLOBAL : op.var, op.name.c_str(), op.name2.c_str()); }); rc_check(op, opi, rc, exp_rc(op), op.rc_any); break;
         case OP_RENAME_DIM: rc = lib([&] { return ncmpi_rename_dim(me.ncid[op.file], op.dim, ((op.note == "multidefine" && r == op.alt_rank) ? op.alt_name : op.name2).c_str()); }); rc_check(op, opi, rc, exp_rc(op), op.rc_any); break;
         case OP_RENAME_VAR: rc = lib([&] { return ncmpi_rename_var(me.ncid[op.file], op.var, ((op.note == "multidefine" && r == op.alt_rank) ? op.alt_name : op.name2).c_str()); }); rc_check(op, opi, rc, exp_rc(op), op.rc_any); break;
@@ -412,6 +413,7 @@ struct Exec {
         case OP_DETACH: rc = lib([&] { return ncmpi_buffer_detach(me.ncid[op.file]); }); rc_check(op, opi, rc, exp_rc(op), op.rc_any); break;
         case OP_INQ: do_inq(op, opi); break;
         case OP_OPENPROBE: do_openprobe(op, opi); break;
+        case OP_MANYFILES: do_manyfiles(op, opi); break;
         case OP_BIGCASE: { c.res->rcs[r][opi].executed = true; run_bigcase(op, r, c.n, [&](const char *k, const std::string &d) { sim::set_in_lib(false); fail(k, opi, d); }); break; }
         case OP_PROBE: {
             int ncid = me.ncid[op.file]; int dummy = 0, v = 0, req = NC_REQ_NULL, stt = 0; MPI_Offset st[16] = {0}, ct[16]; for (auto &x : ct) x = 1; double val = 0;
@@ -494,6 +496,31 @@ struct Exec {
         }
     }
     // open an arbitrary byte image; if the library accepts it, its metadata must be self-consistent and bounded reads must terminate (C19)
+    // C17: the table of open files.  a[0] files are created, a[1] of them closed again in an order given by a[2] (0 oldest first, 1 every other one, 2 newest first),
+    // then files are created until the library refuses; every id must be valid and distinct, exactly NC_MAX_NFILES files can be open at once, the next create
+    // returns NC_ENFILE, and everything closes cleanly (the leak oracle runs at the end of the program)
+    void do_manyfiles(Op &op, int opi) {
+        c.res->rcs[r][opi].executed = true;
+        std::vector<int> ids; std::vector<char> used(NC_MAX_NFILES + 8, 0); int serial = 0;
+        auto create1 = [&](int &id) { std::string path = "/sim/many" + std::to_string(serial++) + ".nc"; id = -12345; sim::set_in_lib(true); int rc = ncmpi_create(MPI_COMM_WORLD, path.c_str(), NC_CLOBBER, MPI_INFO_NULL, &id); sim::set_in_lib(false); return rc; };
+        auto close1 = [&](int id) { sim::set_in_lib(true); int rc = ncmpi_close(id); sim::set_in_lib(false); if (rc != NC_NOERR) fail("manyfiles", opi, "ncmpi_close(" + std::to_string(id) + ") returned " + ncmpi_strerrno(rc)); if (id >= 0 && id < (int)used.size()) used[id] = 0; };
+        auto take = [&](int id, int rc, const char *phase) {
+            if (rc != NC_NOERR) { fail("manyfiles", opi, std::string(phase) + ": ncmpi_create #" + std::to_string(serial) + " failed with " + ncmpi_strerrno(rc) + " while only " + std::to_string(ids.size()) + " files are open"); return false; }
+            if (id < 0 || id >= NC_MAX_NFILES) { fail("manyfiles", opi, std::string(phase) + ": ncmpi_create returned NC_NOERR but the id is " + std::to_string(id)); return false; }
+            if (used[id]) { fail("manyfiles", opi, std::string(phase) + ": ncmpi_create returned id " + std::to_string(id) + " which is still open"); return false; }
+            used[id] = 1; ids.push_back(id); return true; };
+        long long n1 = std::min<long long>(std::max<long long>(op.a[0], 1), NC_MAX_NFILES), n2 = std::min<long long>(std::max<long long>(op.a[1], 0), n1); bool ok = true;
+        for (long long i = 0; i < n1 && ok; i++) { int id; int rc = create1(id); ok = take(id, rc, "phase 1"); }
+        if (ok) {
+            std::vector<int> keep, drop;
+            for (size_t i = 0; i < ids.size(); i++) { bool d = op.a[2] == 0 ? (long long)i < n2 : op.a[2] == 1 ? (i % 2 == 0 && (long long)drop.size() < n2) : (long long)i >= (long long)ids.size() - n2; (d ? drop : keep).push_back(ids[i]); }
+            for (int id : drop) close1(id);
+            ids = keep;
+            while (ok && (int)ids.size() < NC_MAX_NFILES) { int id; int rc = create1(id); ok = take(id, rc, "phase 2"); }
+            if (ok) { int id; int rc = create1(id); if (rc != NC_ENFILE) { fail("manyfiles", opi, "with NC_MAX_NFILES files open ncmpi_create returned " + std::string(ncmpi_strerrno(rc)) + " instead of NC_ENFILE"); if (rc == NC_NOERR) { sim::set_in_lib(true); ncmpi_close(id); sim::set_in_lib(false); } } }
+        }
+        for (int id : ids) close1(id);
+    }
     void do_openprobe(Op &op, int opi) {
         int ncid = -1;
         sim::set_in_lib(true);
